@@ -40,6 +40,9 @@ var headerTable = map[string]string{
 
 // raHeader extracts the header fields of the RA returned on a path.
 func raHeader(e *an.Expr) map[string]*an.Expr {
+	if e == nil {
+		return nil
+	}
 	if e.Op == an.OpNew && len(e.Args) == 1 {
 		e = e.Args[0]
 	}
